@@ -33,8 +33,6 @@ def _vacuity_proj(path):
     with open(path) as f:
         for line in f:
             n += 1
-            if n % 7:      # a sample is enough
-                continue
             c = json.loads(line)
             e = c["exp"]
             if e.get("short"):
